@@ -31,8 +31,8 @@ def body(run):
     for pol, mode in combos:
         for side in ("server", "client"):
             salt += 1
-            n = run.pick(30, None if pol in ("None", "Basic256Sha256") else 40)
-            for b in sc.sample(rows, n, run.seed, salt):
+            n = run.pick(8, None if pol in ("None", "Basic256Sha256") else 10)   # per split shape
+            for b in sc.stratified(rows, lambda r: r.get("split"), n, run.seed, salt):
                 c = dict(b)
                 c.update({"prop": "C12", "policy": pol, "mode": mode, "side": side, "sender": "ref", "salt": salt})
                 cases.append(c)
@@ -43,7 +43,7 @@ def body(run):
         raise vf.Inconclusive("harness returned %d results for %d cases" % (len(results), len(cases)))
     for r in results:   # every stream is non-trivial: class = side x mode x plan x numbering
         c = r.get("case", {})
-        r["class"] = "C12/%s/%s/%s/plan=%s/first=%s" % (c.get("side"), c.get("policy"), c.get("mode"),
+        r["class"] = "C12/%s/%s/%s/%s/plan=%s/first=%s" % (c.get("side"), c.get("policy"), c.get("mode"), c.get("split"),
                                                       "".join("%d%s" % (m["n"], "a" if m["ab"] else "") for m in c.get("plan", [])),
                                                       c.get("sp", {}).get("first"))
         r["nontrivial"] = True
@@ -63,7 +63,7 @@ def body(run):
 
     run.cov["streams_generated"] = len(rows)
     run.cov["rule"] = ("one case per (TLC stream, policy, mode, receiving side); class = receiver x policy x mode x plan "
-                       "(chunks per message, aborts) x numbering (plain / four shapes of the wrap)")
+                       "(chunks per message, aborts) x numbering (plain / four shapes of the wrap); the split shape of the bodies (any / even / 1-2 byte first / 1-2 byte last part) is part of the stream")
     run.assumptions += [
         "message bodies are encoded with ua.Encode (codec = family A); chunk layout, numbering, padding and the split points are the harness's own",
         "the channel's symmetric keys are taken from the sending side's algorithm object (uasc.VerifInstanceAlgo); HMAC/AES are gopcua's primitives (family of C14)",
